@@ -12,7 +12,7 @@ RULE = ("cases: (a) Bitarray / Memory.incr_bits+get_bits op sequences on a seed 
         "(b) get_indexes(key,k,m) with every hash call recorded into the model's table, (c) decorated Bloom predicate "
         "add/query sequences via Cache.bloom with m,k from params_for. non-trivial: (a) an increment that saturates or "
         "whose neighbour field is non-zero, (b) a collision re-probe happened or k=m, (c) a query of an added element or "
-        "a query answered False")
+        "a query answered False; add/query calls are issued positionally or by keyword")
 TRUSTED_BASE = ["Coq 8.16.1 kernel + vm_compute", "hand-written model coq/Model/Bits.v tied by this differential run",
                 "hash functions (zlib.crc32, adler32 stand-in as 2nd algorithm) enter as recorded tables",
                 "params_for float formula is not modelled: m,k are read from the implementation"]
@@ -62,7 +62,7 @@ def gen_cases(rng, tier):
         truth = [rng.random() < 0.7 for _ in elems]
         ops = []
         for _ in range(rng.randint(2, 3 * cap + 6 if cap < 6 else 25)):
-            ops.append([rng.choice(["add", "query", "query"]), rng.randrange(n)])
+            ops.append([rng.choice(["add", "query", "query"]), rng.randrange(n), rng.choice(["pos", "kw"])])
         cases.append({"kind": "bloom", "capacity": cap, "fp": fp, "check_fp": rng.random() < 0.5, "elems": elems,
                       "truth": truth, "ops": ops, "nalg": rng.choice([1, 1, 2])})
     return cases
@@ -154,12 +154,10 @@ def run_impl(case):
                 async def pred(x):
                     return truth[x]
                 outs = []
-                for op, e in case["ops"]:
+                for op, e, form in case["ops"]:
                     el = case["elems"][e]
-                    if op == "add":
-                        outs.append(bool(await pred.set(el)))
-                    else:
-                        outs.append(bool(await pred(el)))
+                    f = pred.set if op == "add" else pred
+                    outs.append(bool(await (f(el) if form == "pos" else f(x=el))))
                 await cache.close()
                 return {"m": m, "k": k, "outs": outs}
             res = vclock.run(go)
@@ -190,7 +188,7 @@ def to_coq(case, obs):
             return C("CIdx", [], N(case["nalg"]), N(case["k"]), N(case["m"]), [N(99999999)])
         return C("CIdx", [((N(a), N(b)), N(c)) for a, b, c in obs["tbl"]], N(case["nalg"]), N(case["k"]), N(case["m"]), [N(x) for x in obs["out"]])
     if kind == "bloom":
-        ops = [C("BlAdd" if op == "add" else "BlQuery", Nat(e)) for op, e in case["ops"]]
+        ops = [C("BlAdd" if op == "add" else "BlQuery", Nat(e)) for op, e, _ in case["ops"]]
         return C("CBloom", N(obs["m"]), N(obs["k"]), N(case["nalg"]), case["check_fp"],
                  [[((N(a), N(b)), N(c)) for a, b, c in t] for t in obs["tbls"]], list(case["truth"]), ops, list(obs["outs"]))
     raise ValueError(kind)
@@ -205,7 +203,7 @@ def nontrivial(case, obs):
     if case["kind"] == "idx":
         return len(obs["tbl"]) > case["k"] or case["k"] == case["m"]
     added = set()
-    for (op, e), o in zip(case["ops"], obs["outs"]):
+    for (op, e, _), o in zip(case["ops"], obs["outs"]):
         if op == "add" and case["truth"][e]:
             added.add(e)
         elif op == "query" and (e in added or not o):
